@@ -72,6 +72,24 @@ func genPit(g *common.Gen, r *common.Rand) {
 		names = append(names, n)
 		return n
 	}
+	if r.Chance(1, 20) {
+		// burst: > 100 dead-nonce records falling due in one tick of the reaper (retransmissions 50 µs apart
+		// put the previous nonce on the list; distinct expiries keep the reaping order deterministic)
+		n, fl, face := draw(), common.Pick(r, flags), r.Range(1, 4)
+		g.Op("I %d %s %d %d %d - - -", face, common.NameText(n), fl[0], fl[1], 1000)
+		burst := r.Range(101, 140)
+		for k := 1; k <= burst; k++ {
+			g.Op("advu 50")
+			g.Op("I %d %s %d %d %d - - -", face, common.NameText(n), fl[0], fl[1], 1000+k)
+		}
+		g.Stat("dnl-burst")
+		maxLife = 4000
+		for k := 0; k < 3; k++ {
+			g.Op("adv %d", common.Pick(r, []int{dnl, dnl + 60, 100, 130}))
+		}
+		g.Op("quiesce %d", maxLife+dnl+500)
+		return
+	}
 	nops := r.Range(15, 60)
 	for k := 0; k < nops; k++ {
 		switch x := r.Intn(100); {
@@ -601,7 +619,7 @@ func exec(op string) string {
 		return "ok"
 	}
 	switch f[0] {
-	case "I", "D", "adv", "quiesce", "cap":
+	case "I", "D", "adv", "advu", "quiesce", "cap":
 		if mode != "pit" {
 			return "skip"
 		}
@@ -672,6 +690,10 @@ func exec(op string) string {
 			binary.BigEndian.PutUint32(p.PitToken[2:], tokReal[k])
 		}
 		th.QueueData(p)
+		synctest.Wait()
+		return dumpPit()
+	case "advu":
+		time.Sleep(time.Duration(common.Atoi(f[1])) * time.Microsecond)
 		synctest.Wait()
 		return dumpPit()
 	case "adv", "quiesce":
